@@ -133,6 +133,18 @@ pub fn main(args: &Args) -> std::io::Result<()> {
                 continue;
             }
         };
+        // the adapters' setters: a tolerance / transform set before the first command is the one given at construction
+        {
+            let via_setter = catch(AssertUnwindSafe(|| {
+                let mut fb = Flattened::new(Rec { n: n_attr, calls: vec![] }, tol * 7.0 + 1.0);
+                fb.set_tolerance(tol);
+                spec.replay(&mut fb);
+                fb.build()
+            }));
+            if via_setter.as_ref() != Some(&calls) {
+                st.fail(jobj(&[("what", jstr("Flattened::set_tolerance before the first command differs from constructing with that tolerance")), ("input", jstr(&label))]));
+            }
+        }
         // expected calls: oracle = for_each_flattened_with_t, attributes lerp(prev, attr, t)
         let mut expect: Vec<Call> = Vec::new();
         let mut ops_lit: Vec<String> = Vec::new();
@@ -244,6 +256,14 @@ pub fn main(args: &Args) -> std::io::Result<()> {
             let a = tb.build();
             let b: Vec<PathEvent> = path.iter().transformed(&tr).collect();
             let c = path.clone().transformed(&tr);
+            // set_transform before the first command
+            let mut tb2 = lyon_path::builder::Transformed::new(Path::builder_with_attributes(n_attr), Transform2D::identity());
+            tb2.set_transform(tr);
+            spec.replay(&mut tb2);
+            let a2 = tb2.build();
+            if positions(&a2) != positions(&a) {
+                panic!("set_transform differs");
+            }
             (a, b, c)
         }));
         match r {
